@@ -23,7 +23,8 @@ TIERS = {
     "thorough": {"runs": 40000, "max_wall": 3000, "minimise_s": 60, "chunk": 200},
 }
 FAULT_KINDS = ["connect refused", "connect unreachable", "connect timeout", "read error", "write error", "peer close", "peer reset",
-               "user disconnect", "stop", "probe answer latency", "probe silence"]
+               "user disconnect", "stop", "probe answer latency", "probe silence",
+               "stop() while re-dialling with persistence on and a failing final save"]
 REAL = ["mysensors.transport", "mysensors.gateway_serial (sync_connect, async_connect)", "mysensors.gateway_tcp (sync_connect, async_connect, "
         "TCPTransport, check_connection, AsyncTCPMySensorsProtocol)", "mysensors.task start/stop", "serial.threaded.ReaderThread"]
 STUBS = ["serial port, socket, select, asyncio selector/serial transports (documented callback contract)", "clock", "thread scheduling"]
